@@ -139,6 +139,22 @@ def run(chk, repo):
     chk.decide(ok, "C11.recursion", W("parcor"), short(g[0])[:110] if g else "guards missing",
                why="filters with feedback are refused, a constant denominator is divided out", node=pc)
     lp = [s for s in pb if isinstance(s, ast.For)]
+    if not lp:
+        wl = [s for s in pb if isinstance(s, ast.While)]
+        if len(wl) == 1:
+            # which variable indexes numpoly[...] ?  is it derived from the polynomial being stepped down?
+            idxs = {unparse(n.slice) for n in ast.walk(wl[0]) if isinstance(n, ast.Subscript)
+                    and unparse(n.value) == "fir_filt.numpoly" and unparse(n.slice) != "0"}
+            dep = [a for a in ast.walk(wl[0]) if isinstance(a, ast.Assign) and unparse(a.targets[0]) in idxs
+                   and "fir_filt" in unparse(a.value)]
+            reassigned = any(isinstance(a, ast.Assign) and unparse(a.targets[0]) == "fir_filt" for a in ast.walk(wl[0]))
+            if dep and reassigned or ("fir_filt" in unparse(wl[0].test) and reassigned):
+                chk.bad("C11.recursion", W("parcor"), "while %s: %s" % (unparse(wl[0].test), short(dep[0]) if dep else ""),
+                        "the order index is read from the polynomial being stepped down: when a reflection coefficient is "
+                        "exactly zero the stored polynomial loses more than one order per step (zero coefficients are "
+                        "not stored) and that coefficient is skipped - the orders must be counted down one by one from "
+                        "the initial length", node=wl[0])
+                return
     chk.require(len(lp) == 1, "parcor: loop not found")
     lp = lp[0]
     chk.decide(unparse(lp.iter) in ("xrange(len(fir_filt.numerator) - 1, 0, -1)", "range(len(fir_filt.numerator) - 1, 0, -1)"),
